@@ -1,6 +1,6 @@
 """Classes of Persist.tla (module level: they must pickle)."""
 from traits.api import (HasTraits, Int, List, Dict, Set, Str, Instance, ReadOnly, Property, cached_property, observe, Any,
-                        DelegatesTo, PrototypedFrom)
+                        DelegatesTo, PrototypedFrom, WeakRef)
 
 
 class Leaf(HasTraits):
@@ -24,6 +24,7 @@ class ObjCore(HasTraits):
     obs_count = Int(transient=True)
     post_count = Int(transient=True)
     total = Property(Int, observe="xs.items")
+    wr = WeakRef(Leaf, allow_none=True)        # a weak reference to a Leaf somebody else keeps alive (copied by REFERENCE: copy="ref")
 
     @observe("xs.items")
     def _count_items(self, event):
